@@ -1322,9 +1322,17 @@ struct array : static_array<T, D, Alloc> {
 			if constexpr(multi::allocator_traits<typename array::allocator_type>::propagate_on_container_copy_assignment::value) {
 				this->alloc() = other.alloc();
 			}
+			// *this is empty here and stays so if the allocation or an element copy throws (no dangling base, nothing leaked)
+			auto const count = static_cast<typename multi::allocator_traits<typename array::allocator_type>::size_type>(other.num_elements());
+			auto const new_base = this->static_::array_alloc::allocate(count);
+			try {
+				this->static_::array_alloc::uninitialized_copy_n(other.data_elements(), other.num_elements(), new_base);
+			} catch(...) {
+				if(count != 0) { multi::allocator_traits<typename array::allocator_type>::deallocate(this->alloc(), new_base, count); }
+				throw;
+			}
+			this->base_ = new_base;
 			this->layout_mutable() = other.layout();
-			array::allocate();
-			array::uninitialized_copy_elements(other.data_elements());
 		}
 		return *this;
 	}
